@@ -606,6 +606,66 @@ def rule_a5(ctx):
                 r.ob(fn, "%s = %s line %s: removed before every finish" % (var, show(rhs)[:40], t.line))
 
 
+def rule_a7(ctx):
+    r = ctx.rule("C02.A7", "T2", "an aio taken out of its park field (x = o->F; o->F = NULL) is completed, re-parked or handed on "
+                 "along every path on which it is not NULL: taking it and then returning loses the only reference and the "
+                 "operation never completes", floor=15)
+    prog = ctx.prog
+    for fn in prog.functions:
+        if fn.cfg_failed:
+            continue
+        takes = []
+        for t in fn.assigns():
+            lhs, rhs = t.node["lhs"], fn.expand(t.node["rhs"])
+            if lhs.get("k") == "var" and is_aio_ptr(lhs) and rhs is not None and rhs.get("k") == "mem" and is_aio_ptr(rhs):
+                takes.append((t, lhs["n"], rhs))
+        for s0 in fn.sites():
+            if s0.node.get("k") == "decls":
+                for d in s0.node["d"]:
+                    ini = fn.expand(d["init"]) if d.get("init") else None
+                    if d["t"] in AIO_TYPES and ini is not None and ini.get("k") == "mem" and is_aio_ptr(ini):
+                        takes.append((s0, d["n"], ini))
+        for t, var, fld in takes:
+            clears = [c for c in fn.assigns() if same_expr(c.node["lhs"], fld) and is_null(fn.expand(c.node["rhs"]))]
+            clears = [c for c in clears if (c.b, c.i) in fn.reach((t.b, t.i))]
+            if not clears:
+                continue
+            uses = set()
+            for s in fn.sites():
+                n = s.node
+                if n.get("k") == "call" and any(a is not None and mentions_var(fn.expand(a), var) for a in n["args"]):
+                    uses.add((s.b, s.i))
+                if n.get("k") == "asg" and n["lhs"].get("k") != "var" and mentions_var(fn.expand(n["rhs"]), var):
+                    uses.add((s.b, s.i))
+                if n.get("k") == "ret" and n.get("e") is not None and mentions_var(fn.expand(n["e"]), var):
+                    uses.add((s.b, s.i))
+            nulledge = {}
+            for b in fn.blocks.values():
+                if b.term and len(b.succs) == 2:
+                    c = fn.cond(b.id)
+                    tt = truth_of(c, lambda n: n.get("k") == "var" and n["n"] == var) if c else 0
+                    if tt:
+                        nulledge[b.id] = 1 if tt > 0 else 0
+            # re-assignment of the variable ends this take
+            reassign = set()
+            for a2 in fn.assigns():
+                if a2.node["lhs"].get("k") == "var" and a2.node["lhs"]["n"] == var and (a2.b, a2.i) != (t.b, t.i):
+                    reassign.add((a2.b, a2.i))
+            for c in clears:
+                seen = fn.reach((c.b, c.i + 1), blocked=lambda b, i, e: (b, i) in uses or (b, i) in reassign,
+                                edge_ok=lambda b, k: not (b in nulledge and k == nulledge[b]))
+                if (fn.exit, 0) in seen:
+                    path = fn.find_path((c.b, c.i + 1), lambda bb, ii: (bb, ii) == (fn.exit, 0),
+                                        blocked=lambda b, i, e: (b, i) in uses or (b, i) in reassign,
+                                        edge_ok=lambda b, k: not (b in nulledge and k == nulledge[b]))
+                    ctx.fail(r, fn, "%s taken from %s and dropped" % (var, show(fld)), c.line,
+                             "%s is taken out of %s (cleared at line %s) and the function can return without completing, "
+                             "re-parking or passing it on while it is not NULL: that operation never completes"
+                             % (var, show(fld), c.line), fn.path_lines(path))
+                else:
+                    r.ob(fn, "%s = %s; cleared line %s: completed or handed on along every non-NULL path" % (var, show(fld), c.line))
+
+
 def rule_d1(ctx):
     from .c10 import summaries, INLINE
     from ..locks import callees, BARRIER
@@ -640,4 +700,5 @@ def run(ctx):   # noqa: F811
     rule_a3(ctx)
     rule_a4(ctx)
     rule_a5(ctx)
+    rule_a7(ctx)
     rule_d1(ctx)
